@@ -528,6 +528,19 @@ pub fn plan(property: &str, tier: &str, seed: u64) -> Plan {
             for p in corpus::hash_corpus().into_iter().chain(corpus::repo_corpus()) {
                 subjects.push(Subject::Program { name: p.name, text: p.text });
             }
+            // the other simulators' programs, here under hash-key / boot-seed variation
+            for (n, t) in crate::replsim::SESSIONS {
+                if !t.contains("import") {
+                    subjects.push(Subject::Program { name: format!("session:{n}"), text: t.lines().collect::<Vec<_>>().join(";\n") });
+                }
+            }
+            for (i, t) in crate::replsim::AGAIN_PROGS.iter().chain(crate::cellsim::SHARED_PROGS.iter()).enumerate() {
+                subjects.push(Subject::Program { name: format!("prog{i}"), text: t.to_string() });
+            }
+            subjects.push(Subject::Program { name: "cell_world".into(), text: format!("{};\n(*c0, *c1, *c3, *c4, *c5, *c6, it(), std.convert.to_string(selfc))", crate::cellmodel::WORLD.trim()) });
+            for (i, a) in crate::cellmodel::ATTACKS.iter().enumerate() {
+                subjects.push(Subject::Program { name: format!("attack{i}"), text: format!("{};\n{a}", crate::cellmodel::WORLD.trim()) });
+            }
             subjects.extend(templates(&mut rng, &pool, if thorough { 12_000 } else { 900 }));
             // type-operation scripts: every universe type against itself and a seeded partner
             let stride = if thorough { 1 } else { 3 };
